@@ -218,12 +218,10 @@ theorem C13_ws_wrong_type_1003 (cfg : Cfg) (s : St) (h : GB.LTS.Reachable (step 
   · rw [closeFrame_reason]; rfl
   · rw [closeFrame_reason]
     simp only [websocketError]
-    apply closeReason_keeps_prefix _ _ (reasonPrefix_short 3 (by decide))
-    intro hlen
-    exfalso
-    have hshort : ∀ eb : Bool, (reasonPrefix 3 ++ (if eb then msgExpectedBinary else msgExpectedText)).length ≤ 123 := by decide
-    have := hshort cfg.expectBinary
-    omega
+    have hfix : ∀ eb : Bool, closeReason (reasonPrefix 3 ++ (if eb then msgExpectedBinary else msgExpectedText)) =
+        reasonPrefix 3 ++ (if eb then msgExpectedBinary else msgExpectedText) := by decide
+    rw [hfix]
+    exact List.prefix_append _ _
 
 /-- The same for a payload the request transcoder rejects: delivered = everything before it. -/
 theorem C13_ws_in_refused_exact (cfg : Cfg) (s : St) (h : GB.LTS.Reachable (step cfg) init s)
@@ -254,28 +252,78 @@ theorem C13_ws_out (binary : Bool) (ps : List Bytes) :
 /-- A clean end of the call closes the socket with 1000 and an empty reason. -/
 theorem C13_close_clean : closeFrame .ok = (1000, []) := by decide
 
-/-- An error closes with a non-1000 code and a reason that starts with `code <gRPC code>: `, is at
-    most 123 bytes, is a prefix of the full reason and is never cut inside a UTF-8 sequence.
-    `hstart` holds for every valid-UTF-8 status message (`closeReason` first applies `strings.ToValidUTF8`). -/
-theorem C13_close_error (c : Nat) (m : Bytes) (hc : c ≤ 16)
-    (hstart : 123 < (reasonPrefix c ++ m).length →
-      ∃ j b, 25 ≤ j ∧ j ≤ 123 ∧ (reasonPrefix c ++ m)[j]? = some b ∧ runeStart b = true) :
+/-- An error closes with a non-1000 code and a reason that — for EVERY gRPC code (a uint32: the 17 named ones
+    and `Code(n)`) and EVERY status message, valid UTF-8 or not — starts with `code <gRPC code>: `, is at most
+    123 bytes, IS VALID UTF-8 (so the client reports code and reason instead of failing the connection), is a
+    prefix of the sanitised full reason `strings.ToValidUTF8(reason, "\uFFFD")`, and loses at most 3 bytes to the
+    rune-boundary back-off. No hypothesis on the message is left (round 5; formerly `hstart`). -/
+theorem C13_close_error (c : Nat) (m : Bytes) (hc : c < 2 ^ 32) :
     (closeFrame (.status c m)).1 = 1001 ∧
     reasonPrefix c <+: (closeFrame (.status c m)).2 ∧
     (closeFrame (.status c m)).2.length ≤ 123 ∧
-    (closeFrame (.status c m)).2 <+: reasonPrefix c ++ m := by
+    ValidUTF8 (closeFrame (.status c m)).2 = true ∧
+    (closeFrame (.status c m)).2 <+: toValidUTF8 (reasonPrefix c ++ m) ∧
+    (closeFrame (.status c m)).2 <+: reasonPrefix c ++ toValidUTF8 m ∧
+    (123 < (toValidUTF8 (reasonPrefix c ++ m)).length → 120 ≤ (closeFrame (.status c m)).2.length) := by
   rw [closeFrame_reason]
   simp only [websocketError]
-  exact ⟨trivial, closeReason_keeps_prefix _ _ (reasonPrefix_short c hc) hstart, closeReason_length _, closeReason_prefix _⟩
+  have hv := toValidUTF8_valid (reasonPrefix c ++ m)
+  have hpre : reasonPrefix c <+: toValidUTF8 (reasonPrefix c ++ m) := by
+    rw [toValidUTF8_ascii_prefix _ _ (reasonPrefix_ascii c hc)]; exact List.prefix_append _ _
+  have hl := reasonPrefix_len c hc
+  refine ⟨trivial, truncReason_keeps_prefix_valid _ _ (by omega) hpre hv, closeReason_length _,
+    truncReason_valid _ hv, truncReason_prefix _, ?_, truncReason_loses_le3 _ hv⟩
+  rw [← toValidUTF8_ascii_prefix _ _ (reasonPrefix_ascii c hc)]
+  exact truncReason_prefix _
+
+/-- `codes.Code.String()` of a code without a name: `Code(<decimal>)` — the prefix the close reason of such a
+    status starts with (e.g. `code Code(17): `, `code Code(4294967295): `). -/
+theorem C13_close_unknown_code_prefix :
+    reasonPrefix 17 = [99, 111, 100, 101, 32, 67, 111, 100, 101, 40, 49, 55, 41, 58, 32] ∧
+    reasonPrefix 4294967295 = [99, 111, 100, 101, 32, 67, 111, 100, 101, 40, 52, 50, 57, 52, 57, 54, 55, 50, 57, 53, 41, 58, 32] ∧
+    (∀ c, c < 2 ^ 32 → (reasonPrefix c).length ≤ 25 ∧ ∀ x ∈ reasonPrefix c, x.toNat < 0x80) :=
+  ⟨by decide, by decide, fun c hc => ⟨reasonPrefix_len c hc, reasonPrefix_ascii c hc⟩⟩
+
+/-- `strings.ToValidUTF8`: the result is valid UTF-8 for every input. -/
+theorem C13_toValidUTF8_valid (s : Bytes) : ValidUTF8 (toValidUTF8 s) = true := toValidUTF8_valid s
+
+/-- The cut on valid UTF-8 (what `closeReason` does after sanitising): the result is valid, a prefix, at most
+    123 bytes, and when something is cut at least 120 bytes remain; the cut is at 0 or right before a byte
+    that starts a rune — never inside a rune. Valid UTF-8 never has four continuation bytes in a row, which
+    is what bounds the back-off loop. -/
+theorem C13_close_cut_valid (v : Bytes) (hv : ValidUTF8 v = true) :
+    ValidUTF8 (truncReason v) = true ∧ truncReason v <+: v ∧ (truncReason v).length ≤ 123 ∧
+    (123 < v.length → 120 ≤ (truncReason v).length) :=
+  ⟨truncReason_valid v hv, truncReason_prefix v, truncReason_length v, truncReason_loses_le3 v hv⟩
+
+/-- What `ValidUTF8` rejects, as Go's `utf8.Valid` does: overlong forms, surrogates, code points above
+    U+10FFFF, stray continuation bytes, truncated runes; and accepts the boundary code points. -/
+theorem C13_validUTF8_boundaries :
+    ValidUTF8 [0xC0, 0x80] = false ∧ ValidUTF8 [0xC1, 0xBF] = false ∧ ValidUTF8 [0xE0, 0x9F, 0xBF] = false ∧
+    ValidUTF8 [0xF0, 0x8F, 0xBF, 0xBF] = false ∧ ValidUTF8 [0xED, 0xA0, 0x80] = false ∧ ValidUTF8 [0xED, 0xBF, 0xBF] = false ∧
+    ValidUTF8 [0xF4, 0x90, 0x80, 0x80] = false ∧ ValidUTF8 [0xF5, 0x80, 0x80, 0x80] = false ∧ ValidUTF8 [0x80] = false ∧
+    ValidUTF8 [0xE2, 0x82] = false ∧ ValidUTF8 [0xFF] = false ∧
+    ValidUTF8 [0x7F] = true ∧ ValidUTF8 [0xC2, 0x80] = true ∧ ValidUTF8 [0xDF, 0xBF] = true ∧ ValidUTF8 [0xE0, 0xA0, 0x80] = true ∧
+    ValidUTF8 [0xED, 0x9F, 0xBF] = true ∧ ValidUTF8 [0xEE, 0x80, 0x80] = true ∧ ValidUTF8 [0xEF, 0xBF, 0xBF] = true ∧
+    ValidUTF8 [0xF0, 0x90, 0x80, 0x80] = true ∧ ValidUTF8 [0xF4, 0x8F, 0xBF, 0xBF] = true := by decide
+
+/-- `ToValidUTF8` on the shapes that matter at the cut: a run of invalid bytes becomes ONE U+FFFD, a truncated
+    rune before ASCII is replaced, a literal U+FFFD is kept, valid text is untouched. -/
+theorem C13_toValidUTF8_examples :
+    toValidUTF8 [97, 0xFF, 0xFE, 98] = [97, 0xEF, 0xBF, 0xBD, 98] ∧
+    toValidUTF8 [0xE2, 0x82, 97] = [0xEF, 0xBF, 0xBD, 97] ∧
+    toValidUTF8 [0xEF, 0xBF, 0xBD, 0x80] = [0xEF, 0xBF, 0xBD, 0xEF, 0xBF, 0xBD] ∧
+    toValidUTF8 [0xC3, 0xA9, 0xE4, 0xB8, 0x96, 0xF0, 0x9F, 0x98, 0x80] = [0xC3, 0xA9, 0xE4, 0xB8, 0x96, 0xF0, 0x9F, 0x98, 0x80] ∧
+    toValidUTF8 [0xED, 0xA0, 0x80] = [0xEF, 0xBF, 0xBD] := by decide
 
 /-- The cut never splits a rune: a shortened reason ends right before a byte that starts a rune. -/
 theorem C13_close_reason_rune_boundary (r : Bytes) (h : 123 < r.length) :
-    ∃ n, closeReason r = r.take n ∧ n ≤ 123 ∧ (n = 0 ∨ ∀ b, r[n]? = some b → runeStart b = true) := by
+    ∃ n, truncReason r = r.take n ∧ n ≤ 123 ∧ (n = 0 ∨ ∀ b, r[n]? = some b → runeStart b = true) := by
   refine ⟨truncPoint r 123, ?_, truncPoint_le r 123, truncPoint_boundary r 123⟩
-  unfold closeReason maxCloseReasonLen
+  unfold truncReason maxCloseReasonLen
   simp [Nat.not_le.2 h]
 
-set_option maxRecDepth 8000 in
+set_option maxRecDepth 100000 in
 /-- What the fix removed: handing the reason to gws unmodified cuts "…é" after the first byte of
     the `é`, leaving an invalid UTF-8 close payload that clients answer with a protocol error.
     Witness: status Aborted with message 108×'a' ++ "é". -/
